@@ -80,7 +80,7 @@ def check_case(case, stats=None, K=oracle.K_QUICK):
                 continue
         if tm.clobbers:
             c = tm.clobbers[0]
-            sig = oracle.clobber_signature(c)
+            sig = oracle.clobber_signature(c, v["instructions"])
             raise Violation(sig + oracle.clobber_shape_suffix(srcs, sig, c), {"opts": opts, "env_seed": es, "clobber": c, "code": res["code"]})
         if case.get("differential"):
             # activations of one function share virtual names, so tags cannot tell them apart: compare with
